@@ -37,7 +37,11 @@ def cases(tier, seed):
             "u32:17:a1a2a3a4:t|f32:20:3f800000:t|u16:23:0303:t",
             "u16:16:0001:t|u16:18:0002:t|u32:21:00030004:t"]
     areas = [("16:8:rw:M", None), ("16:8:rw:M|24:4:r:M", 24), ("16:8:w:M|28:4:rw:M", 28), ("12:4:rw:C-W|16:8:rw:M", 12),
-             ("16:8:rw:CRW|24:2:w:M|30:2:rw:M", 30), ("10:3:rw:M|16:8:r:CR-|26:3:rw:M", 26)]
+             ("16:8:rw:CRW|24:2:w:M|30:2:rw:M", 30), ("10:3:rw:M|16:8:r:CR-|26:3:rw:M", 26),
+             # degenerate but accepted layouts: an area of size zero between / in front of / behind mapped neighbours,
+             # writable neighbours without a hole, areas without registers
+             ("16:8:rw:M|24:0:rw:CRW|24:4:w:M", 24), ("16:0:rw:M|16:8:rw:M|24:4:rw:M", None), ("12:4:rw:M|16:8:rw:M|24:0:rw:M|26:2:rw:M", None),
+             ("16:8:rw:M|24:4:rw:M", 24), ("12:4:rw:M|16:8:rw:M|24:6:rw:M", None)]
     n = 0
     for aline, other in areas:
         for r in regs:
